@@ -54,6 +54,7 @@ class C15(Spec):
                 # stale timer event, second time-out on one slot, lost wake-up
                 "K 1 1 0 x@0,a@0,a@0 -", "K 1 1 600 x,a,a -", "K 1 1 600 X,a,a -", "K 1 2 600 X,x,a,a,a a",
                 "K 1 1 600 n@200,n@200,a@0 -", "K 1 1 600 n@200,n@300,a@0,n@250,a -",
+                "K 1 1 600 U a 300", "K 1 1 600 P a 300", "K 1 1 600 S a 300", "K 1 1 600 W a 300", "K 1 1 600 D a 300",
                 "K 1 1 5000 " + ",".join(["T@20,a@0"] * 12) + " -", "K 1 1 5000 " + ",".join(["T@20,a@5000"] * 12) + " -",
                 "K 2 2 5000 " + ",".join(["T@25,a@0,a@3000"] * 8) + " -",
                 "L 1 4000", "L 2 3000"]
@@ -74,6 +75,8 @@ class C15(Spec):
                         b += "@%d" % rng.choice([200, 300, 450])     # its own, shorter time-out
                 elif r < 0.33:
                     b = rng.choice("xX")
+                elif r < 0.38 and k <= m:
+                    b = rng.choice("UPSWD")      # (no request queued behind: bytes sent while the next one is in flight ARE its response)
                 else:
                     b = rng.choice("adbc")
                     if rng.random() < 0.2:
@@ -106,13 +109,17 @@ class C15(Spec):
         behs = [x.split("@")[0] for x in toks]
         tmos = [int(x.split("@")[1]) if "@" in x else int(t[3]) for x in toks]
         outs = f["r"].split(",")
-        closing = any(b in "xX" for b in behs)   # a request handed over to a connection that is being closed may be lost with it
+        closing = any(b in "xXW" for b in behs)   # a request handed over to a connection that is being closed may be lost with it
         for i, (b, o) in enumerate(zip(behs, outs)):
             if o.startswith("F") and o != "F%d" % i:
                 return "request %d was fulfilled with the response to request %s (%s)" % (i, o[1:], case)
             if o == "P":
                 return "request %d (%s) was never settled (%s)" % (i, b, case)
             # (the first <limit> requests go out on fresh connections: they are never handed over)
+            if b in "UPSW" and o != "F%d" % i and not (closing and i >= int(t[2])):
+                return "request %d was answered by the server but its promise was %s (%s)" % (i, o, case)
+            if b == "D" and o != "R":
+                return "request %d was answered with a response that cannot be parsed but its promise was %s (%s)" % (i, o, case)
             if b in "adbcexg" and o != "F%d" % i and not (closing and i >= int(t[2])):
                 return "request %d was answered by the server but its promise was %s (%s)" % (i, o, case)
             if b in "nlhHX" and (tmos[i] > 0 or b == "X") and o != "R":
@@ -120,7 +127,7 @@ class C15(Spec):
         if f["twice"] != "0":
             return "a request's promise was settled more than once (%s)" % case
         # a pool slot opens a new connection only after its previous one was closed (time-out or server close)
-        closes = sum(1 for b in behs if b in "nlhHxXT")
+        closes = sum(1 for b in behs if b in "nlhHxXTUPSWD")
         if int(f["accepted"]) > int(f["limit"]) + closes:
             return "the server accepted %s connections: more than the limit %s plus the %d connections closed by time-out/server (%s)" % (f["accepted"], f["limit"], closes, case)
         return None
